@@ -26,15 +26,42 @@ theorem errors_contained_run (c : Consts) (env : Env) (o : Nat → Outcome) (n :
     run c (env.setOut o) n σ [] = run c env n σ [] :=
   run_setOut c env o n σ []
 
+/-- **startup_writes_call_no_read.**  What `writeInitParams` calls for module `i` (in the start-up round and behind it),
+for every environment and every state: exactly the write functions of the start values still in its `writeDict`, in
+that order — no read function of any parameter, polled or not, and no poll function; the calls do not depend on how
+any of them ends; afterwards nothing is left to write for that module (a second `writeInitParams` calls nothing) and
+the start values of the other modules are untouched. -/
+theorem startup_writes_call_no_read (env : Env) (o : Nat → Outcome) (σ : PollState) (i : Nat) :
+    (writeInit env σ i []).evs.map evKey = (σ.pending i).map (fun p => (i, Fn.write p)) ∧
+    (∀ e ∈ (writeInit env σ i []).evs, isRead e.f = false ∧ e.f ≠ Fn.doPoll) ∧
+    writeInit (env.setOut o) σ i [] = writeInit env σ i [] ∧
+    (writeInit env σ i []).σ.pending i = [] ∧
+    (writeInit env (writeInit env σ i []).σ i []).evs = [] ∧
+    ∀ j, j ≠ i → (writeInit env σ i []).σ.pending j = σ.pending j := by
+  have hc : (writeInit env σ i []).evs.map evKey = (σ.pending i).map (fun p => (i, Fn.write p)) := by
+    simpa using writeInit_calls env σ i []
+  obtain ⟨hp, hother⟩ := writeInit_pending env σ i []
+  refine ⟨hc, ?_, writeInit_setOut env o σ i [], hp, ?_, hother⟩
+  · intro e he
+    have hk : evKey e ∈ (σ.pending i).map (fun p => (i, Fn.write p)) := hc ▸ List.mem_map_of_mem he
+    obtain ⟨p, _, hpe⟩ := List.mem_map.1 hk
+    have hf : e.f = Fn.write p := (congrArg Prod.snd hpe).symm
+    rw [hf]; exact ⟨rfl, by simp⟩
+  · have := writeInit_calls env (writeInit env σ i []).σ i []
+    rw [hp] at this
+    simpa using this
+
 /-- **late_writes_contained.**  The `writeInitParams` calls behind the start-up round (repaired code: the configured
 values a round broken off by a communication failure had skipped): the successor state and the call list do not depend
 on any outcome — whatever a late write raises (SECoP / silent / communication error, arbitrary exception), the thread
-goes on — and every module of the thread, polled or not, gets exactly one such call, in list order. -/
-theorem late_writes_contained (env : Env) (o : Nat → Outcome) (is : List Nat) (σ : PollState) (evs : List Event) :
+goes on — and the calls are, for every module of the thread in list order, polled or not, exactly the write functions of
+the start values it has still to write: no read function is called. -/
+theorem late_writes_contained (env : Env) (o : Nat → Outcome) (is : List Nat) (hnd : is.Nodup) (σ : PollState)
+    (evs : List Event) :
     lateAll (env.setOut o) is σ evs = lateAll env is σ evs ∧
-    (lateAll env is σ []).evs.map (fun e => (e.m, e.f)) = is.map (fun i => (i, Fn.write)) := by
+    (lateAll env is σ []).evs.map evKey = is.flatMap (fun i => (σ.pending i).map (fun p => (i, Fn.write p))) := by
   refine ⟨lateAll_setOut env o is σ evs, ?_⟩
-  simpa using lateAll_calls env is σ []
+  simpa using lateAll_calls env is hnd σ []
 
 /-- everything behind the start-up round — the late writes and any number of turns — is independent of all outcomes:
 from the state the round leaves, no failure of any kind changes what the thread does next (only a communication failure
@@ -75,10 +102,11 @@ theorem not_due_not_polled (c : Consts) (env : Env) (hq : Quiet env) (D E : Nat)
 
 /-! ## parameters that are not polled -/
 
-/-- **nopoll_never_read.**  In every trace of the thread body (start-up round and any number of turns), for every
-environment: each `read_p` call is for a parameter listed as polled of a module with polling enabled, each
-`doPoll` is of a module with polling enabled — the clause `NoPollNeverRead` of the specification, the one the
-monitor evaluates on implementation traces. -/
+/-- **nopoll_never_read.**  In every trace of the thread body — the start-up round with everything `writeInitParams`
+calls, the late writes, and any number of turns — for every environment and whatever start values are to be written:
+each `read_p` call is for a parameter listed as polled of a module with polling enabled, each `doPoll` is of a module
+with polling enabled — the clause `NoPollNeverRead` of the specification, the one the monitor evaluates on
+implementation traces (whose events are every function of a module the poll thread's own code calls). -/
 theorem nopoll_never_read (c : Consts) (env : Env) (n : Nat) (σ : PollState) (h : σ.toPoll = none)
     (loopStart tEnd eps : Nat) :
     NoPollNeverRead (traceOf σ (thread c env n σ).evs loopStart tEnd eps) := by
@@ -104,7 +132,7 @@ theorem nopoll_never_read (c : Consts) (env : Env) (n : Nat) (σ : PollState) (h
   | init =>
     have : mm < (statics σ).length := hv
     simpa [traceOf, statics] using this
-  | write =>
+  | write q =>
     have : mm < (statics σ).length := hv
     simpa [traceOf, statics] using this
 
@@ -531,9 +559,9 @@ lower limit), in every quiet bounded environment and for any number of turns: th
 holds with one sweep `= sweepBound n D E`, and every polled parameter is refreshed within `slowBound` — no further
 hypothesis about the state. -/
 theorem bounds_from_thread_start (c : Consts) (env : Env) (hq : Quiet env) (D E : Nat) (hb : Bounded env D E)
-    (clock : Nat) (decl : List (Bool × Nat × List Nat × Nat)) (stamp : Nat → Nat → Nat)
+    (clock : Nat) (decl : List (Bool × Nat × List Nat × Nat)) (stamp : Nat → Nat → Nat) (pending : Nat → List Nat)
     (hiv : ∀ d ∈ decl, d.2.2.2 < clock) (hslow : ∀ d ∈ decl, 0 < d.2.1) (k : Nat) :
-    let σ := startState clock (decl.map fun d => startMod d.1 d.2.1 d.2.2.1 d.2.2.2) stamp
+    let σ := startState clock (decl.map fun d => startMod d.1 d.2.1 d.2.2.1 d.2.2.2) stamp pending
     MainGapBoundS (sweepBound σ.mods.length D E)
       (traceOf σ (thread c env k σ).evs (prologue c env σ).σ.clock (thread c env k σ).σ.clock E) ∧
     ∀ (i p : Nat) (m : Mod), σ.mods[i]? = some m → m.enabled = true → p ∈ m.polled →
@@ -664,10 +692,10 @@ example : ¬ MainGapBoundS 0
 /-- `bounds_from_thread_start` on a thread of two polled modules and one that is only written, started at clock 1000 -/
 example :
     let σ := startState 1000 ([(true, 40, [0, 1], 10), (true, 60, [2], 25), (false, 50, [], 7)].map
-      fun d => startMod d.1 d.2.1 d.2.2.1 d.2.2.2) (fun _ _ => 0)
+      fun d => startMod d.1 d.2.1 d.2.2.1 d.2.2.2) (fun _ _ => 0) (fun i => if i = 2 then [0, 4] else [3])
     MainGapBoundS (sweepBound σ.mods.length 3 1)
       (traceOf σ (thread exConsts exEnv 30 σ).evs (prologue exConsts exEnv σ).σ.clock (thread exConsts exEnv 30 σ).σ.clock 1) :=
-  (bounds_from_thread_start exConsts exEnv exEnv_quiet 3 1 exEnv_bounded 1000 _ (fun _ _ => 0)
+  (bounds_from_thread_start exConsts exEnv exEnv_quiet 3 1 exEnv_bounded 1000 _ (fun _ _ => 0) _
     (by decide) (by decide) 30).1
 
 /-- `interval_change_takes_effect` on the example thread: after 7 turns another thread switches fast polling on for
@@ -701,15 +729,42 @@ example : ∃ t, startsOf (turn exConsts exEnv (prologue exConsts exEnv exState)
   due_polled_this_turn exConsts exEnv exEnv_quiet 3 1 exEnv_bounded _ 1 (exMod 25 60 [2]) (by decide) rfl (by decide)
 
 /-- the late path on the example thread: `initialReads` of module 0 ends with a communication error (call 1) and every
-other call — the `writeInitParams` before it included — with an arbitrary exception: the round is broken off at once,
-then `writeInitParams` of all three modules is called (the one that is only written included), and the loop polls as
-if nothing had happened -/
+other call — the write of its start value before it included — with an arbitrary exception: the round is broken off at
+once, then `writeInitParams` of all three modules is called: nothing is left for module 0, module 1 has no start values,
+the two start values of the module that is only written are written now; the loop polls as if nothing had happened -/
 example :
     (prologue exConsts (exEnv.setOut (fun k => if k = 1 then .comm else .exc)) exState).aborted = true ∧
-    (prologue exConsts (exEnv.setOut (fun k => if k = 1 then .comm else .exc)) exState).evs.map (fun e => (e.m, e.f)) =
-      [(0, .write), (0, .init), (0, .write), (1, .write), (2, .write)] ∧
+    (prologue exConsts (exEnv.setOut (fun k => if k = 1 then .comm else .exc)) exState).evs.map evKey =
+      [(0, .write 3), (0, .init), (2, .write 0), (2, .write 4)] ∧
     (startsOf (thread exConsts (exEnv.setOut (fun k => if k = 1 then .comm else .exc)) 30 exState).evs 0).length ≥ 5 := by
   decide +kernel
+
+/-- the regular path: every start value is written in the round, before `initialReads` of its module; the late
+`writeInitParams` calls find nothing left -/
+example : ((prologue exConsts exEnv exState).evs.map evKey).take 6 =
+      [(0, .write 3), (0, .init), (1, .init), (2, .write 0), (2, .write 4), (2, .init)] ∧
+    (∀ i, i < 3 → (prologue exConsts exEnv exState).σ.pending i = []) ∧
+    ((prologue exConsts exEnv exState).evs.filter (fun e => match e.f with | .write _ => true | _ => false)).length = 3 := by
+  decide +kernel
+
+/-- `startup_writes_call_no_read` on it: `writeInitParams` of the module that is only written makes two calls, both write
+functions, and leaves nothing; parameter 3 of module 0 — which has a start value but is not polled — is written, never read -/
+example : (writeInit exEnv exState 2 []).evs.map evKey = [(2, .write 0), (2, .write 4)] ∧
+    (writeInit exEnv exState 2 []).σ.pending 2 = [] ∧ (writeInit exEnv exState 2 []).σ.pending 0 = [3] ∧
+    readsOf (thread exConsts exEnv 30 exState).evs 0 3 = [] :=
+  ⟨(startup_writes_call_no_read exEnv exEnv.out exState 2).1, (startup_writes_call_no_read exEnv exEnv.out exState 2).2.2.2.1,
+   (startup_writes_call_no_read exEnv exEnv.out exState 2).2.2.2.2.2 0 (by decide), by decide +kernel⟩
+
+/-- `late_writes_contained` on the state the broken-off round leaves -/
+example : (lateAll exEnv [0, 1, 2] (startupRound exConsts (exEnv.setOut (fun k => if k = 1 then .comm else .exc)) exState).σ []).evs.map evKey =
+    [(2, .write 0), (2, .write 4)] := by
+  rw [(late_writes_contained exEnv exEnv.out [0, 1, 2] (by decide) _ []).2]
+  decide +kernel
+
+/-- a trace in which the poll thread reads a parameter marked as not polled right after writing its start value
+(inside `writeInitParams`) is flagged by the monitor, wherever in the trace it is -/
+example : noPollB (traceOf exState [⟨1000, 0, .write 3, 3⟩, ⟨1003, 0, .read 3, 3⟩, ⟨1006, 0, .init, 3⟩] 1010 2000 1) = false ∧
+    noPollB (traceOf exState [⟨1000, 0, .write 3, 3⟩, ⟨1003, 0, .init, 3⟩] 1010 2000 1) = true := by decide
 
 /-- `nopoll_never_read` on it, and the monitor agrees -/
 example : noPollB (traceOf exState (thread exConsts exEnv 30 exState).evs 1000 2000 1) = true :=
